@@ -233,7 +233,7 @@ impl Prop for C17 {
         64
     }
     fn cases(&self, t: Tier) -> usize {
-        t.pick(40_000, 1_000_000)
+        t.pick(400_000, 30_000_000)
     }
     fn rule(&self) -> String {
         "tape-decoded network = optional prefix layer + looped range a..b whose output shape equals the input shape of a (1-3 dense layers; 1-2 shape-preserving convolutions / deconvolutions; 1x1-kernel padding-1 convolution + 3x3 pool; 2x2 deconvolution + 2x2 pool) + optional suffix (a dense layer, which makes the range output flattened, or another fitting layer); k = 1..3, five accumulations, input skips on/off; distinct weights, random inputs. Oracle: o0 = R(x_a), oi = R(o(i-1) [+ x_a]), value passed on = acc(o0; o1..ok), composed from the library's own single-layer forwards and tensor operations (<= 2 ulp, bit-identical today); for overwrite without input skips additionally the plain network with a..b repeated k+1 times and the same weights. Non-trivial: a < b or a spatial range. Distinct = (architecture, a, b, k, accumulation, input skips).".into()
